@@ -19,6 +19,19 @@ Theorem C13_forked_inprocess_agree :
 Proof. exact forked_inprocess_agree. Qed.
 Print Assumptions C13_forked_inprocess_agree.
 
+(* a run in the runner's own process (CGREEN_NO_FORK) followed by a forked run with the same
+   reporter: the second run's report is the specification's for its tree - nothing the first
+   run's tests did to the framework state (figures, mock mode, pending expectations) reaches it *)
+Theorem C13_earlier_in_process_run_leaves_no_trace :
+  forall rk cap n1 n2,
+    In rk builtin_reporters -> (1 <= cap)%nat ->
+    is_suite n1 -> ok_tree InProcess cap n1 -> is_suite n2 -> ok_tree Forked cap n2 ->
+    exists v1 v2 p1 p2,
+      run_two rk verdict_suite InProcess Forked cap n1 n2 = (Finished v1 p1, Finished v2 p2) /\
+      out p2 = spec_events [] (total n1) n2 ++ spec_events [] czero n1 /\ tot p2 = cadd (total n1) (total n2).
+Proof. exact second_run_unaffected. Qed.
+Print Assumptions C13_earlier_in_process_run_leaves_no_trace.
+
 (* the reset: after AReset nothing an earlier test did to the framework is visible *)
 Theorem C13_reset_restores_framework_state :
   forall f g l, glob f = glob g -> exec f (AReset :: l) = exec g (AReset :: l).
